@@ -186,11 +186,14 @@ def execute(engine, prop, tier, tape, index=0, known=None, keep_trace=400):
 
 
 def execute_isolated(engine, prop, tier, tape, index=0, known=None,
-                     keep_trace=400):
+                     keep_trace=400, prelude=()):
     """Like execute(), but in a forked child: the run starts from the
     pristine process state (nothing of rig has been *called* in the parent),
     so state the code under test keeps between calls cannot leak from one run
-    into the next and a replay in a fresh interpreter sees the same world."""
+    into the next and a replay in a fresh interpreter sees the same world.
+    ``prelude``: run seeds executed first, in that child, their outcomes
+    discarded (a violation that needs what earlier runs of its chunk left
+    behind in the process is replayed as that sequence)."""
     import pickle
     r, wfd = os.pipe()
     pid = os.fork()
@@ -198,6 +201,8 @@ def execute_isolated(engine, prop, tier, tape, index=0, known=None,
         code = 0
         try:
             os.close(r)
+            for ps in prelude:
+                execute(engine, prop, tier, Tape(seed=int(ps)), 0, known, 10)
             o = execute(engine, prop, tier, tape, index, known, keep_trace)
             with os.fdopen(wfd, "wb") as f:
                 f.write(pickle.dumps(o.as_dict()))
@@ -232,6 +237,47 @@ def run_engine(engine, *args, **kwargs):
 
 
 def _chunk_worker(args):
+    """One chunk of runs.  The pool's worker processes never execute the code
+    under test themselves: an engine with ISOLATE forks a child per run, the
+    others a child per chunk.  Whatever state a (changed) library keeps
+    between calls is therefore confined to one chunk, whose runs execute in
+    index order - the outcome of a batch does not depend on which worker got
+    which chunk, and a violation that needs the earlier runs of its chunk is
+    replayed with them as its prelude."""
+    engine_name, prop, tier, verif_seed, indices, known, timeout = args
+    from . import engines_registry
+    engine = engines_registry.get(engine_name)
+    if getattr(engine, "ISOLATE", False):
+        return _chunk_body(args)
+    import pickle
+    r, wfd = os.pipe()
+    pid = os.fork()
+    if pid == 0:
+        code = 0
+        try:
+            os.close(r)
+            res = _chunk_body(args)
+            with os.fdopen(wfd, "wb") as f:
+                f.write(pickle.dumps(res))
+        except BaseException:
+            code = 3
+        finally:
+            os._exit(code)
+    os.close(wfd)
+    # (armed after the fork: a child must not inherit a watchdog whose thread
+    # does not exist there)
+    faulthandler.dump_traceback_later(timeout + 20, exit=True)
+    with os.fdopen(r, "rb") as f:
+        data = f.read()
+    os.waitpid(pid, 0)
+    faulthandler.cancel_dump_traceback_later()
+    if not data:
+        raise RuntimeError("the child running chunk %d..%d died without a "
+                           "result" % (indices[0], indices[-1]))
+    return pickle.loads(data)
+
+
+def _chunk_body(args):
     engine_name, prop, tier, verif_seed, indices, known, timeout = args
     faulthandler.dump_traceback_later(timeout, exit=True)
     from . import engines_registry
@@ -260,7 +306,8 @@ def _chunk_worker(args):
 # ---------------------------------------------------------------------------
 
 def shrink(engine, prop, tier, segments, monitor, known, budget_s=60.0,
-           max_runs=2000):
+           max_runs=2000, prelude=()):
+    """Candidates run in forked children of the (pristine) main process."""
     t0 = time.time()
     runs = [0]
 
@@ -268,7 +315,8 @@ def shrink(engine, prop, tier, segments, monitor, known, budget_s=60.0,
         if runs[0] >= max_runs or time.time() - t0 > budget_s:
             return None
         runs[0] += 1
-        o = run_engine(engine, prop, tier, Tape(segments=segs), known=known)
+        o = execute_isolated(engine, prop, tier, Tape(segments=segs),
+                             known=known, prelude=prelude)
         if o.harness_error is None and o.violation is not None and \
                 o.violation["monitor"] == monitor:
             return o
@@ -567,8 +615,45 @@ def main(argv=None):
                 segs, out, nshrink = shrink(
                     engine, prop, tier, d["segments"], mon, known,
                     budget_s=plan.get("shrink_s", 60))
+            prelude = []
+            if out is None and not is_wall(d["violation"]):
+                # not reproducible on its own: it needs state that earlier
+                # runs of its chunk left behind in the process.  Replay it
+                # with those runs as prelude, dropping the ones not needed.
+                ch = next(c for c in chunks if d["index"] in c)
+                prelude = [str(derive_seed(args.seed, prop, j))
+                           for j in ch if j < d["index"]]
+
+                def with_prelude(pre):
+                    o = execute_isolated(engine, prop, tier,
+                                         Tape(segments=d["segments"]),
+                                         known=known, prelude=pre)
+                    return o if (o.harness_error is None and o.violation and
+                                 o.violation["monitor"] == mon) else None
+                out = with_prelude(prelude) if prelude else None
+                if out is None:
+                    prelude = []
+                else:
+                    t1 = time.time()
+                    i = 0
+                    while i < len(prelude) and time.time() - t1 < 60:
+                        cand = prelude[:i] + prelude[i + 1:]
+                        o = with_prelude(cand)
+                        if o is not None:
+                            prelude, out = cand, o
+                        else:
+                            i += 1
+                    segs, out2, n2 = shrink(
+                        engine, prop, tier, d["segments"], mon, known,
+                        budget_s=plan.get("shrink_s", 60), prelude=prelude)
+                    nshrink += n2
+                    if out2 is not None:
+                        out = out2
+                    else:
+                        segs = d["segments"]
             if out is None:
-                # could not reproduce in-process: still report, unshrunk
+                # could not reproduce in a fresh process: still report,
+                # unshrunk
                 out_d = d
                 segs = d["segments"]
                 reproduced = False
@@ -589,14 +674,16 @@ def main(argv=None):
                 "digest": out_d["digest"], "ops": out_d["ops"],
                 "trace": out_d["trace"], "shrink_runs": nshrink,
                 "reproduced_in_process": reproduced,
+                "prelude_seeds": prelude,
                 "original_tape_ops": len(d["segments"]["ops"]),
             })
             replay_paths.append(rp)
             print("VIOLATION property=%s replay=%s" % (prop, rp))
             print("  monitor=%s %s" % (mon, out_d["violation"]["message"]))
-            print("  run_seed=%s ops=%d (from %d) shrink_runs=%d"
+            print("  run_seed=%s ops=%d (from %d) shrink_runs=%d%s"
                   % (d["seed"], len(segs["ops"]), len(d["segments"]["ops"]),
-                     nshrink))
+                     nshrink, " prelude=%d earlier runs of its chunk"
+                     % len(prelude) if prelude else ""))
             reported += 1
             exit_code = 1
     for line, cnt in known_lines.items():
@@ -725,8 +812,9 @@ def replay(engine, prop, path, known):
     from .seams import rig_module
     for mname in getattr(engine, "RIG_MODULES", []):
         rig_module(mname)
-    o = run_engine(engine, prop, doc.get("tier", "quick"),
-                   Tape(segments=doc["tape"]), known=[])
+    o = execute_isolated(engine, prop, doc.get("tier", "quick"),
+                         Tape(segments=doc["tape"]), known=[],
+                         prelude=doc.get("prelude_seeds") or ())
     if o.harness_error:
         print("HARNESS-ERROR during replay:\n" + o.harness_error)
         return 2
